@@ -641,7 +641,7 @@ fn main() {
             "file" => (file_stream(e["file"].as_str().unwrap(), e["n"].as_u64().unwrap() as usize), vec![]),
             other => panic!("unknown stream {}", other),
         };
-        let ft = FtCfg::from_plan(e);
+        let ft = if chain.iter().any(|k| k.starts_with("ft_")) { FtCfg::from_plan(e) } else { FtCfg { apid: None, ctid: None } };
         let plugins = match mk_plugins(&chain, &ft, &tests, &work, case) {
             Ok(p) => p,
             Err(err) => {
